@@ -9,27 +9,31 @@ Definition valid_tr (a b : bstate) : bool :=
   | _, _ => false
   end.
 
-(** [s] = the state the listeners have been told; [probe] = the thread whose Open -> Half-Open
-    event is the previous log entry (its build result must come next) *)
+(** [s] = the state the listeners have been told; [probe] = the thread that performed the
+    Open -> Half-Open transition of the current phase and whose build result is still to come.
+    Only that thread's request may be admitted while the breaker is not Closed; whatever other
+    threads complete meanwhile, every transition reported must start from the state told last. *)
 Fixpoint ok_log (retry_ms : N) (s : bstate) (probe : option N) (log : list cev) : bool :=
   match log with
   | [] => match probe with None => true | Some _ => false end
   | e :: tl =>
-      match probe, e with
-      | Some w, EBuild who adm => (who =? w) && adm && ok_log retry_ms s None tl
-      | Some _, _ => false          (* the transition to Half-Open admits exactly its own request *)
-      | None, ETrans who from to now retry =>
+      match e with
+      | ETrans who from to now retry =>
           bstate_eqb from s && valid_tr from to &&
           (match from, to with
            | Open, HalfOpen => retry <=? now                      (* never before the retry deadline *)
            | Closed, Open => retry =? now + retry_ms
            | _, _ => true
            end) &&
-          ok_log retry_ms to (match from, to with Open, HalfOpen => Some who | _, _ => None end) tl
-      | None, EBuild who adm =>
-          (if adm then bstate_eqb s Closed else true) &&          (* no second probe, no pass while Open *)
-          ok_log retry_ms s None tl
-      | None, EExit _ _ _ => ok_log retry_ms s None tl
+          ok_log retry_ms to (match from, to with Open, HalfOpen => Some who | _, _ => probe end) tl
+      | EBuild who adm =>
+          match probe with
+          | Some w =>
+              if who =? w then ok_log retry_ms s None tl          (* the probe's own result, admitted or rejected by a later rule *)
+              else (if adm then bstate_eqb s Closed else true) && ok_log retry_ms s probe tl
+          | None => (if adm then bstate_eqb s Closed else true) && ok_log retry_ms s None tl
+          end
+      | EExit _ _ _ => ok_log retry_ms s probe tl
       end
   end.
 
